@@ -35,11 +35,15 @@ from ..refmodel import topology as T
 
 PID = "C12"
 RULE = ("straight-sided meshes of the five refinable cell kinds (Delaunay/jittered/tensor/sheared/distorted/extruded, "
-        "holes, several components, renumbered, locally permuted, scaled by 2^+-10, offset by +-1000, rotated), their "
+        "holes, several components, renumbered, locally permuted, scaled by 2^-30 .. 2^20, offset by +-1000 or +-2^20, "
+        "rotated), their "
         "second-order classes, library constructors and the meshes under docs/examples/meshes, each with random named "
-        "cell subsets and facet subsets (interior facets, oriented boundaries, empty/full/single sets; int32/int64, "
-        "unsorted, strided, read-only arrays, predicates) refined k = 1..3 times, also step by step and interleaved "
-        "with restrict/mirror/translate/scale/adaptive refinement/smoothing; the parent of every child cell and "
+        "cell subsets and facet subsets (interior facets, oriented boundaries, empty/full/single sets; int32/int64/"
+        "uint8/int16, unsorted, strided, read-only arrays, arrays with repeated entries, Python lists / tuples (empty "
+        "too), views of the mesh's own boundary_facets() array, predicates over boundary / all facets) refined k = 1..3 times, also step by step and interleaved "
+        "with restrict/mirror/translate/scale/adaptive refinement/smoothing/oriented()/to_meshtri/to_meshtet/m1 + m2/"
+        "m1 @ m2/remove_duplicate_nodes/from_mesh/morphed/dict-npz-file round trips/with_defaults; parents carrying a "
+        "point that no cell uses (trailing / interior index); the parent of every child cell and "
         "facet is found geometrically in exact integer arithmetic; distinct key = (mesh class, tag kinds, history "
         "shape, k); non-trivial iff some tag set is neither empty nor full and is not mapped to the same child set "
         "by the 'blocked' (i + j*nt) and the 'interleaved' (N*i + j) child layouts")
@@ -53,23 +57,56 @@ REQUIRED_MONITORS = ["cell-count", "old-vertices-kept", "valid-mesh", "no-duplic
                      "children-inside-one-parent", "children-per-parent", "children-measure",
                      "cells-nondegenerate", "facets-at-most-two-cells", "boundary-facets-preserved",
                      "facets-subdivide-parent-facets", "no-hanging-nodes", "subdomains-propagated",
-                     "boundaries-propagated", "dropped-tags-warned", "second-order-nodes-straight"]
+                     "boundaries-propagated", "dropped-tags-warned", "second-order-nodes-straight",
+                     "tags-usable-as-indices"]
 REQUIRED_REACH = ["exact-mode", "tolerant-mode", "levels>=2", "interior-facet-tagged", "oriented-boundary-tagged",
                   "boundaries-dropped-with-warning", "child-layout-not-blocked", "history:restrict",
                   "history:mirrored", "stepwise", "second-order-parent", "several-components", "docs-meshes-refined",
-                  "unsorted-triangle-cells"]
+                  "unsorted-triangle-cells", "empty-tag-usability-judged", "tag-form:list", "tag-form:tuple",
+                  "tag-form:repeated-entries", "tag-form:uint8", "tag:empty-python-sequence",
+                  "tag:view-of-own-boundary_facets", "tag:predicate-over-all-facets",
+                  "parent-with-unused-vertices:trailing", "parent-with-unused-vertices:interior"]
+REQUIRED_REACH += ["nonplanar-hex-judged", "boundaries-dropped-with-warning:second-order-triangles-or-quadrilaterals"]
+REQUIRED_REACH += ["scaled-by-2^-30", "scaled-by-2^20", "offset-by-2^20"]
+REQUIRED_REACH += ["history:" + op for op in ("oriented", "join-add", "join-matmul", "dedup", "from-mesh",
+                                              "morphed", "io-dict", "io-npz", "io-file", "defaults")]
 ASSUMPTIONS = [
     "the vertex order conventions of the reference cells (rv.exact.QUAD_CORNERS / HEX_CORNERS, unit simplices) define "
     "what a cell is; Mesh.facets[:, i] defines which vertices facet index i designates (judged under C11)",
-    "hexahedral meshes are taken from the planar-face generators only (tensor, parallelepiped, extruded, sheared): "
-    "'straight-sided' is read as planar faces, and the exact containment test needs convex cells",
+    "hexahedral meshes with planar faces (tensor, parallelepiped, extruded, sheared) get the exact plane-based "
+    "containment / measure / hanging-node tests; hexahedra with straight edges and non-planar (bilinear) faces "
+    "('jiggled') are judged combinatorially from exact midpoint identities (each child a positively oriented octant "
+    "of one parent in reference coordinates, conformity on the dictionary topology, all tag clauses), without "
+    "measure and plane tests",
+    "named boundaries: 'the cell types that support it (segments, triangles, quadrilaterals)' is read as the "
+    "first-order classes MeshLine1 / MeshTri1 / MeshQuad1, which implement a facet map; MeshTri2 / MeshQuad2 are "
+    "triangles and quadrilaterals as well but refine through from_mesh and drop the names with the warning, which "
+    "is accepted as 'propagation unsupported' and counted (reach boundaries-dropped-with-warning:second-order-"
+    "triangles-or-quadrilaterals, tolerated[boundaries-propagated]); STRICT_SECOND_ORDER_BOUNDARIES = True judges "
+    "the other reading; a silent drop or stale indices fail under both",
+    "tags are index sets given as 1-D integer arrays of any integer dtype, Python lists / tuples of ints (possibly "
+    "empty) or predicates; boolean masks, 2-D arrays and float arrays are not judged",
+    "REPORT_ONLY lists mechanisms of library defects found by the strengthened workload and reported, not yet "
+    "decided; their witnesses are counted under reach 'report-only:*' instead of failing the run",
     "second-order classes: the location of node j of cell c is doflocs[:, mesh.dofs.element_dofs[j, c]] "
     "(the library's documented ordering convention)",
 ]
 
+# Genuine library defects found by a strengthened workload, reported to the maintainers of the harness but not yet
+# decided (fix or known finding): witnesses of exactly these mechanisms are counted (reach 'report-only:<mech>',
+# tolerated[...]) instead of failing the run.  Everything else stays a violation.
+REPORT_ONLY = set()      # (the defects it held were repaired in the library: cd67d70, d8cb789)
+
 TOL = 1e-12
 SECOND_ORDER = ("MeshTri2", "MeshQuad2", "MeshTet2", "MeshHex2")
 BOUNDARY_SUPPORT = ("MeshLine1", "MeshTri1", "MeshQuad1")   # classes for which the statement promises boundary tags
+# DECISION (see ASSUMPTIONS): the statement's "cell types that support it (segments, triangles, quadrilaterals)" is
+# read as the classes that implement a facet map, i.e. the first-order ones.  MeshTri2 / MeshQuad2 are triangles and
+# quadrilaterals too, but refine through from_mesh (a bare mesh) and drop the names with the warning, which the
+# statement's last clause allows "where propagation is unsupported".  With the flag set, the strict reading is
+# judged instead: a dropped boundary on these two classes fails with mech 'boundaries-dropped:<class>'.
+STRICT_SECOND_ORDER_BOUNDARIES = False
+SECOND_ORDER_OF_SUPPORTING_TYPES = ("MeshTri2", "MeshQuad2")
 NCHILD = {"line": 2, "tri": 4, "quad": 4, "tet": 8, "hex": 8}
 
 
@@ -341,7 +378,9 @@ def vertex_part(mesh, kind):
     """(float vertex coordinates (D, nv), vertex rows of t as int64)."""
     nvl = G.NVERT[kind]
     t = np.asarray(mesh.t)[:nvl].astype(np.int64)
-    nv = int(t.max()) + 1
+    # second-order classes keep their other nodes after the vertices; first-order ones may carry points that no
+    # cell uses (they are part of "the original vertices keep their indices and positions")
+    nv = int(t.max()) + 1 if cls_name(mesh) in SECOND_ORDER else np.asarray(mesh.doflocs).shape[1]
     return np.asarray(mesh.doflocs)[:, :nv], t
 
 
@@ -446,10 +485,29 @@ def judge(ctx, parent, child, k, records, kind, tag, history="single"):
 
     Pp, tp = vertex_part(parent, kind)
     ntp = tp.shape[1]
+    second = cls in SECOND_ORDER
+    # points of the parent that no cell refers to (what m1 @ m2, Mesh.load of a mixed file or remove_elements
+    # leave behind).  PITFALL: the child legitimately inherits them; the clauses "every vertex used" / is_valid()
+    # are judged only when the parent has none, otherwise only points the call itself created must be used.
+    p_unused = np.zeros(0, dtype=np.int64)
+    if not second:
+        used_p = np.zeros(np.asarray(parent.doflocs).shape[1], dtype=bool)
+        used_p[tp.ravel()] = True
+        p_unused = np.nonzero(~used_p)[0]
     # ---- structure of the child
     probs = own_validity(ctx, child, kind, tag)
-    second = cls in SECOND_ORDER
-    if not probs and not second:
+    if p_unused.size:
+        ctx.reached("parent-with-unused-vertices:" + ("trailing" if p_unused.max() > tp.max() else "interior"))
+        ctx.drop("parent-has-unused-vertices")
+        probs = [p for p in probs if p != "unused-vertex-index"]
+        if not probs:
+            tcf = np.asarray(child.t).astype(np.int64)
+            used_c = np.zeros(np.asarray(child.doflocs).shape[1], dtype=bool)
+            used_c[tcf.ravel()] = True
+            fresh = np.setdiff1d(np.nonzero(~used_c)[0], p_unused)
+            if fresh.size:
+                probs.append("new-unused-vertex:%s" % fresh[:4].tolist())
+    elif not probs and not second:
         # PITFALL: Mesh.is_valid() is False for every second-order class (it compares all doflocs columns with
         # the vertex rows of t), also for the unrefined default meshes; used for first-order classes only.
         if np.asarray(child.doflocs).shape[1] != int(np.asarray(child.t).max()) + 1:
@@ -521,7 +579,13 @@ def judge(ctx, parent, child, k, records, kind, tag, history="single"):
     gp = CellGeom(kind, Ap, tp, slack=noise_abs / TOL)
     gc = CellGeom(kind, Ac, tc, slack=noise_abs / TOL)
     rtol_meas = 1e-10 + 8 * noise_abs / max(float(gc.h.min()), 1e-300)
-    if gp.flat.any() or (kind == "hex" and not _planar_ok(gp, tol)):
+    if kind == "hex" and not gp.flat.any() and not _planar_ok(gp, tol):
+        # straight edges, bilinear faces: no supporting planes, judged combinatorially (note: the generic clauses
+        # evaluated above this line have been counted for this call already)
+        if k == 1:
+            return judge_nonplanar_hex(ctx, parent, child, records, tag, history)
+        return judge_nonplanar_hex_levels(ctx, parent, child, k, records, tag, history)
+    if gp.flat.any():
         raise Skip("parent-not-straight-convex")       # generator outside the quantifier
 
     # ---- non-degenerate, not inverted
@@ -712,6 +776,187 @@ def judge(ctx, parent, child, k, records, kind, tag, history="single"):
     return J
 
 
+def judge_nonplanar_hex(ctx, parent, child, records, tag, history="single"):
+    """One call child = parent.refined(1) of a hexahedral mesh with NON-PLANAR faces (straight edges, bilinear
+    faces).  No supporting planes exist, so instead of the plane predicates the octant structure is decided
+    combinatorially from exact midpoint identities: in dyadic arithmetic with three spare bits every vertex of a
+    correct child is the exact mean of 1, 2, 4 or 8 vertices of one parent cell, i.e. the image of a point of the
+    lattice {0, 1/2, 1}^3 under that cell's trilinear map.  Decided: each child is a positively oriented octant
+    of one parent (containment and orientation in reference coordinates), 8 distinct octants per parent, new
+    points = all edge / face / cell midpoints, once each, conformity on the dictionary topology, and all tag
+    clauses with the parent / facet maps found this way.  Measure and plane-based tests are not evaluated."""
+    kind, k = "hex", 1
+    cls = cls_name(parent)
+    mk = lambda name: f"{name}:{cls}:nonplanar"                                 # noqa: E731
+    info = dict(cls=cls, k=1, case=tag, history=history, nonplanar=True)
+    ctx.check("same-class", type(child) is type(parent), mech=mk("class-changed"), got=cls_name(child), **info)
+    Pp, tp = vertex_part(parent, kind)
+    ntp = tp.shape[1]
+    if bits_of(to_int(Pp)[0]) + 3 > 52:
+        raise Skip("nonplanar-hex-midpoints-not-exact")
+    used_p = np.zeros(Pp.shape[1], dtype=bool)
+    used_p[tp.ravel()] = True
+    probs = own_validity(ctx, child, kind, tag)
+    if used_p.all() and not probs and cls not in SECOND_ORDER:
+        if np.asarray(child.doflocs).shape[1] != int(np.asarray(child.t).max()) + 1:
+            probs.append("extra-doflocs-columns")
+        if not child.is_valid():
+            probs.append("is_valid()-false")
+    elif not used_p.all():
+        probs = [p for p in probs if p != "unused-vertex-index"]
+    ctx.check("valid-mesh", not probs, mech=mk("valid-mesh"), problems=probs, **info)
+    if probs:
+        return None
+    Pc, tc = vertex_part(child, kind)
+    ntc, nvp = tc.shape[1], Pp.shape[1]
+    ctx.check("cell-count", ntc == 8 * ntp, mech=mk("cell-count"), got=ntc, expected=8 * ntp, **info)
+    kept = Pc.shape[1] >= nvp and np.array_equal(Pc[:, :nvp], Pp)
+    ctx.check("old-vertices-kept", kept, mech=mk("old-vertices"), **info)
+    uniq = np.unique(Pc, axis=1).shape[1]
+    ctx.check("no-duplicate-vertices", uniq == Pc.shape[1], mech=mk("duplicate-vertices"),
+              vertices=Pc.shape[1], distinct=uniq, **info)
+    if not kept or uniq != Pc.shape[1]:
+        return None
+    A, _ = to_int(np.hstack([Pp, Pc]))
+    Ap, Ac = A[:, :nvp], A[:, nvp:]
+    # 8 x image of the lattice point r in {0, 1, 2}^3 (twice the reference coordinates) of parent cell K
+    lattice = list(itertools.product((0, 1, 2), repeat=3))
+    where = {}                                           # 8 * point -> list of (K, r)
+    for K in range(ntp):
+        V = [tuple(int(x) for x in Ap[:, tp[j, K]]) for j in range(8)]
+        for r in lattice:
+            acc = [0, 0, 0]
+            for j, c in enumerate(HEX_CORNERS):
+                w = 1
+                for i in range(3):
+                    w *= r[i] if c[i] else 2 - r[i]
+                if w:
+                    for i in range(3):
+                        acc[i] += w * V[j][i]
+            where.setdefault(tuple(acc), []).append((K, r))
+    ctx.reached("nonplanar-hex-judged")
+    place = [where.get(tuple(8 * int(x) for x in Ac[:, v]), []) for v in range(Ac.shape[1])]
+    usedc = np.zeros(Ac.shape[1], dtype=bool)
+    usedc[tc.ravel()] = True
+    stray = [v for v in np.nonzero(usedc)[0].tolist() if not place[v]]
+    ctx.check("children-inside-one-parent", not stray, mech=mk("child-vertex-is-no-midpoint-of-parent-vertices"),
+              n_bad=len(stray), first=lambda: stray[:4], coords=lambda: Pc[:, stray[:2]].T.tolist(), **info)
+    if stray:
+        return None
+    # new points: every edge / face / cell midpoint of the parent exactly once (no duplicates was checked above)
+    expected_new = {key for key, lst in where.items() if any(1 in r for _, r in lst)}
+    got_new = {tuple(8 * int(x) for x in Ac[:, v]) for v in range(nvp, Ac.shape[1]) if usedc[v]}
+    ctx.check("children-per-parent", got_new == expected_new, mech=mk("new-vertices-are-not-the-midpoints"),
+              missing=len(expected_new - got_new), extra=len(got_new - expected_new), **info)
+    # each child: an oriented octant of one parent
+    HC = np.array(HEX_CORNERS, dtype=np.int64)
+    parent_of = -np.ones(ntc, dtype=np.int64)
+    Rc = np.zeros((ntc, 8, 3), dtype=np.int64)
+    bad = []
+    for c in range(ntc):
+        cand = None
+        for j in range(8):
+            Ks = {K for K, _ in place[int(tc[j, c])]}
+            cand = Ks if cand is None else cand & Ks
+        if not cand or len(cand) != 1:
+            bad.append((c, "vertices-in-%d-parents" % (len(cand) if cand else 0)))
+            continue
+        K = next(iter(cand))
+        rs = []
+        for j in range(8):
+            rr = [r for KK, r in place[int(tc[j, c])] if KK == K]
+            rs.append(rr[0])
+        R = np.array(rs, dtype=np.int64)
+        o = R[7]
+        M = np.stack([R[4] - o, R[5] - o, R[6] - o], axis=1)          # images of e_0, e_1, e_2
+        ok = (np.abs(M).sum(axis=0) == 1).all() and (np.abs(M).sum(axis=1) == 1).all() \
+            and round(float(np.linalg.det(M))) == 1 and np.array_equal(R, o[None, :] + HC @ M.T)
+        if not ok:
+            bad.append((c, "not-an-oriented-octant", R.tolist()))
+            continue
+        parent_of[c] = K
+        Rc[c] = R
+    ctx.check("cells-nondegenerate", not bad, mech=mk("child-not-an-oriented-octant-of-one-parent"),
+              n_bad=len(bad), first=lambda: bad[:2], **info)
+    if bad:
+        return None
+    octant = Rc.min(axis=1)                                            # in {0, 1}^3
+    per = {}
+    for c in range(ntc):
+        per.setdefault(int(parent_of[c]), set()).add(tuple(octant[c].tolist()))
+    badp = [K for K in range(ntp) if len(per.get(K, ())) != 8]
+    per_parent = np.bincount(parent_of, minlength=ntp)
+    ctx.check("children-per-parent", not badp and (per_parent == 8).all(), mech=mk("children-per-parent"),
+              first_bad_parent=lambda: badp[:3], **info)
+    # ---- conformity on the dictionary topology
+    faces = OWN_FACETS[kind]
+    topo_p = T.Topology(tp, faces)
+    topo_c = T.Topology(tc, faces)
+    if topo_p.max_cells_per_facet() > 2:
+        raise Skip("parent-non-manifold")
+    mx = topo_c.max_cells_per_facet()
+    ctx.check("facets-at-most-two-cells", mx <= 2, mech=mk("facet-with-more-than-two-cells"), max_cells=mx, **info)
+    fmap, clash = {}, 0
+    for c in range(ntc):
+        K = int(parent_of[c])
+        for f, fv in enumerate(faces):
+            R = Rc[c, fv]                                              # (4, 3)
+            for ax in range(3):
+                for b in (0, 1):
+                    if (R[:, ax] == 2 * b).all():
+                        key_c, key_p = topo_c.cell_facets[c][f], topo_p.cell_facets[K][2 * ax + b]
+                        if fmap.setdefault(key_c, key_p) != key_p:
+                            clash += 1
+    bnd_p, bnd_c = topo_p.boundary_facet_keys(), topo_c.boundary_facet_keys()
+    strayf = [kf for kf in bnd_c if fmap.get(kf) not in bnd_p]
+    ctx.check("boundary-facets-preserved", not strayf and len(bnd_c) == 4 * len(bnd_p) and clash == 0,
+              mech=mk("boundary-facets"), n_child_boundary=len(bnd_c), n_parent_boundary=len(bnd_p),
+              stray=lambda: strayf[:3], ambiguous=clash, **info)
+    by_parent = {}
+    for kc, kp in fmap.items():
+        by_parent.setdefault(kp, []).append(kc)
+    count_bad = [kp for kp in topo_p.facet_cells if len(by_parent.get(kp, ())) != 4]
+    ctx.check("facets-subdivide-parent-facets", not count_bad, mech=mk("parent-facet-not-tiled"),
+              wrong_count=lambda: count_bad[:3], **info)
+    # without duplicate points and with every child an octant, a hanging node can only show as a child facet
+    # (inside a parent or on an interior parent facet) that has a cell on one side only
+    int_p = topo_p.interior_facet_keys()
+    one_sided = [kc for kc, cells in topo_c.facet_cells.items()
+                 if len({c for c, _ in cells}) == 1 and (kc not in fmap or fmap[kc] in int_p)]
+    ctx.check("no-hanging-nodes", not one_sided, mech=mk("one-sided-interior-child-facet"),
+              first=lambda: one_sided[:3], **info)
+    J = Judgement()
+    J.parent_of, J.fmap, J.topo_c, J.topo_p, J.exact = parent_of, fmap, topo_c, topo_p, True
+    if ((np.arange(ntc) % ntp) != parent_of).any():
+        ctx.reached("child-layout-not-blocked")
+    judge_tags(ctx, parent, child, k, records, kind, J, info, ntp, ntc)
+    return J
+
+
+def judge_nonplanar_hex_levels(ctx, parent, child, k, records, tag, history):
+    """refined(k), k >= 2, of a hexahedral mesh with non-planar faces: the same call level by level (each level
+    judged by judge_nonplanar_hex), and the k-level result must be the mesh the single levels produce (second
+    execution that must agree: refined(k) is k times refined(1))."""
+    cur, J = parent, None
+    for _ in range(k):
+        nxt, recs = refine(cur, 1)
+        J = judge_nonplanar_hex(ctx, cur, nxt, recs, tag, history=history + "/level")
+        if J is None:
+            return None
+        cur = nxt
+
+    def same_tags(a, b):
+        if (a is None) != (b is None):
+            return False
+        return a is None or (set(a) == set(b) and all(np.array_equal(np.sort(np.asarray(a[n]).ravel()),
+                                                                       np.sort(np.asarray(b[n]).ravel())) for n in a))
+    ok = (np.array_equal(np.asarray(child.p), np.asarray(cur.p)) and np.array_equal(np.asarray(child.t), np.asarray(cur.t))
+          and same_tags(child.subdomains, cur.subdomains) and same_tags(child.boundaries, cur.boundaries))
+    ctx.check("cell-count", ok, mech=f"refined(k)-differs-from-k-times-refined(1):{cls_name(parent)}", k=k, case=tag)
+    ctx.reached("levels>=2")
+    return J
+
+
 def _planar_ok(g, tol):
     if tol == 0.0:
         return bool(g.planar.all())
@@ -725,12 +970,13 @@ def hanging_nodes(gc, Pc, tc, Ac, nonneg):
     V = Pc[:, tc]
     cen = V.mean(axis=1)
     rad = np.sqrt(((V - cen[:, None, :]) ** 2).sum(axis=0)).max(axis=0) * (1 + 1e-9)
-    tree = cKDTree(Pc.T)
+    usedv = np.unique(tc)                      # a point no cell refers to is not a node of the mesh
+    tree = cKDTree(Pc[:, usedv].T)
     lists = tree.query_ball_point(cen.T, rad)
     cs, vs = [], []
     for c, lst in enumerate(lists):
         own = set(tc[:, c].tolist())
-        for v in lst:
+        for v in usedv[lst].tolist():
             if v not in own:
                 cs.append(c)
                 vs.append(v)
@@ -743,6 +989,53 @@ def hanging_nodes(gc, Pc, tc, Ac, nonneg):
     inside = nonneg(S, sc[:, None, :]).all(axis=(0, 1))
     idx = np.nonzero(inside)[0]
     return [(int(vs[i]), int(cs[i])) for i in idx[:5]]
+
+
+def gated(ctx, monitor, cond, mech, **detail):
+    """ctx.check, except that a failure whose mechanism is listed in REPORT_ONLY is counted instead of recorded."""
+    if not cond:
+        m = mech() if callable(mech) else mech
+        if m in REPORT_ONLY:
+            ctx.ok(monitor)
+            ctx.tolerated(monitor)
+            ctx.reached("report-only:" + m)
+            ctx.notes.setdefault("report_only:" + m, repr({k: (v() if callable(v) else v)
+                                                           for k, v in detail.items()})[:800])
+            return False
+        mech = m
+    return ctx.check(monitor, cond, mech=mech, **detail)
+
+
+def tag_usable(ctx, ptag, ctag, table, what, cls, name, info):
+    """A named set is something that selects columns of t / facets.  Judged when the parent's tag was such a thing
+    (1-D integer ndarray of any integer dtype, or a list / tuple of ints, possibly empty): the child's tag must
+    again have an integer dtype (also when it is empty: np.unique([]) or a / 2 in an index map produce float64,
+    which no indexing accepts) or be an empty list / tuple, and `table[:, tag]` must evaluate."""
+    pa = np.asarray(ptag)
+    seq = isinstance(ptag, (list, tuple))
+    if pa.ndim != 1 or pa.dtype == bool:
+        return
+    if not (np.issubdtype(pa.dtype, np.integer) or (seq and pa.size == 0)):
+        return
+    ca = np.asarray(ctag)
+    problems = []
+    if not (np.issubdtype(ca.dtype, np.integer) or (isinstance(ctag, (list, tuple)) and ca.size == 0)):
+        problems.append("dtype:" + str(ca.dtype))
+    try:
+        table[:, ctag]
+    except Exception as e:  # noqa: BLE001
+        problems.append("indexing-raises:" + type(e).__name__)
+
+    def mech():
+        if (cls == "MeshLine1" and what == "subdomain" and seq and pa.size == 0 and isinstance(ctag, np.ndarray)
+                and ca.size == 0 and ca.dtype == np.float64):
+            return "line1-empty-list-subdomain-becomes-float64-array"
+        return f"{what}-tag-not-usable-as-index:{cls}"
+    gated(ctx, "tags-usable-as-indices", not problems, mech, name=name, problems=problems,
+          parent_tag_type=type(ptag).__name__, parent_dtype=str(pa.dtype), child_tag_type=type(ctag).__name__,
+          child_dtype=str(ca.dtype), child_shape=ca.shape, **info)
+    if pa.size == 0:
+        ctx.reached("empty-tag-usability-judged")
 
 
 def judge_tags(ctx, parent, child, k, records, kind, J, info, ntp, ntc):
@@ -769,18 +1062,23 @@ def judge_tags(ctx, parent, child, k, records, kind, J, info, ntp, ntc):
                     continue
                 want = set(np.nonzero(np.isin(J.parent_of, np.fromiter(Sp, dtype=np.int64, count=len(Sp))))[0]
                            .tolist())
+                tag_usable(ctx, ixs, csub[name], np.asarray(child.t), "subdomain", cls, name, info)
                 got = index_set(csub[name], ntc)
                 ok = got is not None and got == want
 
-                def mech(got=got, want=want, Sp=Sp):
+                def mech(got=got, want=want, Sp=Sp, ixs=ixs):
+                    if (cls == "MeshLine1" and isinstance(ixs, np.ndarray) and ixs.dtype.kind in "iu" and Sp
+                            and N1 ** k * (max(Sp) + 1) - 1 > np.iinfo(ixs.dtype).max):
+                        # 2 * ixs is computed in the tag's own dtype: the largest child index does not fit
+                        return "line1-subdomain-index-map-overflows-the-tag-dtype"
                     if got is not None and got != want and got == sim_layout(Sp, ntp, N1, k, "blocked"):
                         if cls == "MeshLine1":
                             return "line1-subdomains-blocked-index-map-on-interleaved-children"
                         if cls == "MeshTet2":
                             return "tet2-subdomains-blocked-index-map-on-grouped-children"
                     return f"subdomains:{cls}"
-                ctx.check("subdomains-propagated", ok, mech=mech, name=name,
-                          parent_set=lambda Sp=Sp: sorted(Sp)[:20],
+                gated(ctx, "subdomains-propagated", ok, mech, name=name,
+                      parent_set=lambda Sp=Sp: sorted(Sp)[:20], parent_dtype=str(np.asarray(ixs).dtype),
                           n_got=lambda got=got: None if got is None else len(got), n_expected=len(want),
                           wrongly_included=lambda got=got, want=want: sorted((got or set()) - want)[:10],
                           missing=lambda got=got, want=want: sorted(want - (got or set()))[:10], **info)
@@ -794,10 +1092,14 @@ def judge_tags(ctx, parent, child, k, records, kind, J, info, ntp, ntc):
         if cbnd is None:
             warned = any("oundar" in m for m in msgs)
             ctx.check("dropped-tags-warned", warned, mech=f"boundaries-dropped-silently:{cls}", messages=msgs, **info)
-            if cls in BOUNDARY_SUPPORT:
+            if cls in BOUNDARY_SUPPORT or (STRICT_SECOND_ORDER_BOUNDARIES and cls in SECOND_ORDER_OF_SUPPORTING_TYPES):
                 ctx.check("boundaries-propagated", False, mech=f"boundaries-dropped:{cls}", **info)
             else:
                 ctx.reached("boundaries-dropped-with-warning")
+                if cls in SECOND_ORDER_OF_SUPPORTING_TYPES:
+                    # accepted under the reading chosen above; counted so that the evidence shows how often
+                    ctx.tolerated("boundaries-propagated")
+                    ctx.reached("boundaries-dropped-with-warning:second-order-triangles-or-quadrilaterals")
         else:
             nfc = np.asarray(child.facets).shape[1]
             ctx.check("boundaries-propagated", set(cbnd) == set(pbnd), mech=f"boundary-names:{cls}",
@@ -812,6 +1114,7 @@ def judge_tags(ctx, parent, child, k, records, kind, J, info, ntp, ntc):
                     continue
                 pkeys = facet_keys_of(parent, Sp)
                 want = {kc for kc, kp in J.fmap.items() if kp in pkeys}
+                tag_usable(ctx, ixs, cbnd[name], np.asarray(child.facets), "boundary", cls, name, info)
                 gi = index_set(cbnd[name], nfc)
                 got = None if gi is None else facet_keys_of(child, gi)
                 ok = got is not None and got == want
@@ -856,7 +1159,8 @@ def bfs_subset(rng, t, nmax):
 def base_mesh(ctx, rng, kind, nmax, allow_inexact=True):
     """First-order parent of `kind` with <= nmax cells: returns (mesh, descriptor)."""
     if kind == "hex":
-        mc = G.hex_mesh(rng, style=str(rng.choice(["tensor", "parallelepiped", "extruded"])))
+        mc = G.hex_mesh(rng, style=str(rng.choice(["tensor", "parallelepiped", "extruded", "jiggled"],
+                                                   p=[.3, .25, .25, .2])))
     else:
         mc = G.first_order(rng, kind, renum=bool(rng.random() < 0.8))
     m = mc.mesh
@@ -872,11 +1176,21 @@ def base_mesh(ctx, rng, kind, nmax, allow_inexact=True):
         desc["subset"] = int(t.shape[1])
     r = rng.random()
     if r < 0.12:
-        s = float(2.0 ** int(rng.choice([-10, -3, 5, 10])))
+        # powers of two keep every coordinate an exact dyadic: a hidden ABSOLUTE threshold in a refinement routine
+        # (rounding to n decimals, atol, isclose) shows at 2^-30 (cells of 1e-9) or 2^20 and not in between
+        e = int(rng.choice([-30, -10, -3, 5, 10, 20]))
+        s = float(2.0 ** e)
         p = p * s
         desc["scaled"] = s
+        if abs(e) >= 20:
+            ctx.reached("scaled-by-2^%d" % e)
     elif r < 0.24:
-        off = rng.integers(-1000, 1001, size=(p.shape[0], 1)).astype(float)
+        if rng.random() < 0.5:
+            off = rng.integers(-1000, 1001, size=(p.shape[0], 1)).astype(float)
+        else:
+            # cells of size 2^-6 or so at 2^20: 26 + few significant bits, midpoints still exact
+            off = rng.choice([-1.0, 1.0], size=(p.shape[0], 1)) * 2.0 ** 20 + rng.integers(-3, 4, size=(p.shape[0], 1))
+            ctx.reached("offset-by-2^20")
         p = p + off
         desc["offset"] = off.ravel().tolist()
     elif r < 0.36 and allow_inexact:
@@ -903,7 +1217,22 @@ def base_mesh(ctx, rng, kind, nmax, allow_inexact=True):
 def index_array(rng, idx):
     """The same index set in one of the shapes a user may hand over."""
     idx = np.asarray(idx, dtype=np.int64)
-    form = int(rng.integers(6))
+    form = int(rng.integers(11))
+    if form == 6:
+        return [int(i) for i in rng.permutation(idx)], "list"
+    if form == 7:
+        return tuple(int(i) for i in rng.permutation(idx)), "tuple"
+    if form == 8:
+        return [np.int64(i) for i in rng.permutation(idx)], "list-of-numpy-scalars"
+    if form == 9 and idx.size:
+        rep = np.concatenate([idx, idx[rng.integers(0, idx.size, size=int(rng.integers(1, idx.size + 2)))]])
+        return rng.permutation(rep).astype(np.int64 if rng.random() < 0.5 else np.int32), "repeated-entries"
+    if form == 10:
+        top = int(idx.max()) if idx.size else 0
+        dt = np.uint8 if top < 2 ** 8 else (np.uint16 if top < 2 ** 16 else np.uint32)
+        if rng.random() < 0.5:
+            dt = np.int16 if top < 2 ** 15 else np.int32
+        return rng.permutation(idx).astype(dt), np.dtype(dt).name
     if form == 0:
         return np.sort(idx).astype(np.int32), "int32-sorted"
     if form == 1:
@@ -952,6 +1281,9 @@ def add_tags(ctx, rng, m, want_boundaries=True, want_subdomains=True):
                 arr, form = index_array(rng, idx)
                 subs[f"s{j}"] = arr
                 desc[f"s{j}"] = f"{how}/{form}/{idx.size}"
+                ctx.reached("tag-form:" + form)
+                if isinstance(arr, (list, tuple)) and not len(arr):
+                    ctx.reached("tag:empty-python-sequence")
         m = m.with_subdomains(subs)
     if want_boundaries:
         nf = m.facets.shape[1]
@@ -972,16 +1304,34 @@ def add_tags(ctx, rng, m, want_boundaries=True, want_subdomains=True):
                 thr = float(np.median(m.p[ax]))
                 bnds[f"b{j}"] = (lambda x, ax=ax, thr=thr: x[ax] <= thr)
                 desc[f"b{j}"] = f"predicate x{ax}<={thr} (boundary facets only)"
-            elif r < 0.55 and bf.size:
+            elif r < 0.38:
+                # a predicate over ALL facets (interior ones included)
+                ax = int(rng.integers(m.p.shape[0]))
+                thr = float(np.median(m.p[ax]))
+                pred = (lambda x, ax=ax, thr=thr: x[ax] <= thr)
+                m = m.with_boundaries({f"b{j}": pred}, boundaries_only=False)
+                desc[f"b{j}"] = f"predicate x{ax}<={thr} (all facets)/{len(m.boundaries[f'b{j}'])}"
+                ctx.reached("tag:predicate-over-all-facets")
+            elif r < 0.46 and bf.size > 1:
+                # a VIEW of the array boundary_facets() returned (no copy): the tag aliases whatever the mesh keeps
+                own = m.boundary_facets()
+                a = int(rng.integers(0, own.size - 1))
+                view = own[a::int(rng.integers(1, 3))]
+                bnds[f"b{j}"] = view
+                desc[f"b{j}"] = f"view-of-boundary_facets()/{view.size}"
+                ctx.reached("tag:view-of-own-boundary_facets")
+            elif r < 0.60 and bf.size:
                 idx, how = random_subset(rng, bf.size)
                 arr, form = index_array(rng, bf[idx])
                 bnds[f"b{j}"] = arr
                 desc[f"b{j}"] = f"boundary-{how}/{form}/{idx.size}"
+                ctx.reached("tag-form:" + form)
             else:
                 idx, how = random_subset(rng, nf)
                 arr, form = index_array(rng, idx)
                 bnds[f"b{j}"] = arr
                 desc[f"b{j}"] = f"any-{how}/{form}/{idx.size}"
+                ctx.reached("tag-form:" + form)
         m = m.with_boundaries(bnds)
     return m, desc
 
@@ -1002,6 +1352,10 @@ def uniform_case(kind):
         nmax = ctx.scale({"line": 16, "tri": 48, "quad": 36, "tet": 24, "hex": 12}[kind],
                          {"line": 40, "tri": 120, "quad": 80, "tet": 60, "hex": 27}[kind])
         m, desc = base_mesh(ctx, rng, kind, nmax)
+        if k_ % 10 in (3, 7):
+            # a point that no cell uses (every _uniform appends its new points after ALL existing ones)
+            desc["unused_vertex"] = "trailing" if k_ % 10 == 7 else "interior"
+            m = with_unused_vertex(rng, m, desc["unused_vertex"])
         m, tdesc = add_tags(ctx, rng, m)
         cap = ctx.scale({"line": 200, "tri": 1600, "quad": 1200, "tet": 1600, "hex": 800}[kind],
                         {"line": 400, "tri": 4000, "quad": 3000, "tet": 4000, "hex": 1800}[kind])
@@ -1043,7 +1397,9 @@ def second_order_case(ctx, k_):
                 "child_boundaries": child.boundaries is not None, "warnings": [m for _, m in recs]}, per_family=1)
 
 
-OPS = ("restrict", "mirrored", "translated", "scaled", "adaptive", "retag", "smoothed", "remove")
+OPS = ("restrict", "mirrored", "translated", "scaled", "adaptive", "retag", "smoothed", "remove",
+       "oriented", "to-simplex", "join-add", "join-matmul", "dedup", "from-mesh", "morphed", "io-dict", "io-npz",
+       "io-file", "defaults")
 
 
 def history_case(ctx, k_):
@@ -1071,9 +1427,12 @@ def history_case(ctx, k_):
         m = child
         if step == nsteps - 1:
             break
-        op = str(rng.choice(OPS))
+        # the first operation is dealt out (every operation on every kind in turn), later ones are drawn
+        op = OPS[(k_ // 5) % len(OPS)] if step == 0 else str(rng.choice(OPS))
         try:
             m2 = apply_op(ctx, rng, m, op, kind, order2)
+            if m2 is not None and not parent_admissible(ctx, m2):
+                m2 = None
         except Skip:
             raise
         except Exception as e:  # noqa: BLE001  (the operation is not the subject of this property)
@@ -1082,6 +1441,10 @@ def history_case(ctx, k_):
         if m2 is None:
             continue
         m = m2
+        kind = G.kind_of(m)                                   # to-simplex changes it
+        order2 = cls_name(m) in SECOND_ORDER                   # from-mesh changes it
+        if m.subdomains is None and m.boundaries is None and op not in ("retag",):
+            m, tdesc = add_tags(ctx, rng, m)                   # joins and conversions build a bare mesh
         shape.append(op)
         ctx.reached("history:" + op)
     ctx.sample({"mesh": cls_name(m), "desc": desc, "history": shape, "final_cells": int(m.t.shape[1])}, per_family=1)
@@ -1098,9 +1461,113 @@ def orient_signs(m, kind):
     return np.stack([np.sign(_det([V[:, hi] - V[:, lo] for hi, lo in row])) for row in CORNER_AXES[kind]])
 
 
+def parent_admissible(ctx, m):
+    """The result of an interleaved operation is a parent only if it is a mesh: the points its cells use are
+    pairwise distinct (PITFALL: joins may legitimately leave coincident points)."""
+    kind = G.kind_of(m)
+    P, t = vertex_part(m, kind)
+    used = np.unique(t)
+    if np.unique(P[:, used], axis=1).shape[1] != used.size:
+        ctx.drop("operation-result-has-coincident-vertices")
+        return False
+    return True
+
+
+def with_unused_vertex(rng, m, where):
+    """First-order mesh with one more point that no cell uses, outside the bounding box (so that no new vertex
+    can coincide with it): "trailing" index or "interior" index (cells renumbered)."""
+    p = np.asarray(m.p, dtype=float)
+    t = np.asarray(m.t).astype(np.int64)
+    d, nv = p.shape
+    lo, hi = p.min(axis=1), p.max(axis=1)
+    ext = float((hi - lo).max())
+    x = hi + ext * np.array([1.0, 0.5, 0.25])[:d]
+    if where == "trailing":
+        p2, t2 = np.hstack((p, x[:, None])), t
+    else:
+        j = int(rng.integers(0, nv))
+        p2 = np.hstack((p[:, :j], x[:, None], p[:, j:]))
+        t2 = t + (t >= j)
+    kw = {"sort_t": False} if (cls_name(m) == "MeshTri1" and not m.sort_t) else {}
+    return type(m)(p2, t2, **kw)
+
+
 def apply_op(ctx, rng, m, op, kind, order2):
+    import skfem
     nt = m.t.shape[1]
     D = m.p.shape[0]
+    if op == "oriented":
+        if order2 or kind not in ("line", "tri", "tet"):
+            return None
+        return m.oriented()
+    if op == "to-simplex":
+        if order2 or kind not in ("quad", "hex"):
+            return None
+        out = (m.to_meshtri(style="x") if rng.random() < 0.6 else m.to_meshtri()) if kind == "quad" else m.to_meshtet()
+        # PITFALL: to_meshtet splits every hexahedron by one template in ITS local vertex order; neighbours numbered
+        # differently get crossing face diagonals, i.e. a non-conforming tetrahedral mesh (more one-sided facets
+        # than the surface has).  Such a result is no parent for this property.
+        if len(out.boundary_facets()) != (1 if kind == "quad" else 2) * len(m.boundary_facets()):
+            ctx.drop("to-simplex-result-not-conforming")
+            return None
+        return out
+    if op in ("join-add", "join-matmul"):
+        if order2 or nt > 150:
+            return None
+        # a translated copy beyond a gap of one diameter (touching copies with non-matching faces would be a
+        # non-conforming parent)
+        ext = float(np.ptp(np.asarray(m.p)[0]))
+        shift = [0.0] * D
+        shift[0] = 2.0 * ext if ext > 0 else 1.0
+        other = m.translated(tuple(shift))
+        if op == "join-add":
+            return m + other
+        a, b = m @ other
+        return b if rng.random() < 0.5 else a                  # each carries the other's points, unused
+    if op == "dedup":
+        if order2 or nt < 2:
+            return None
+        # crack the mesh (cells of a random half get their own copies of their vertices), tag it, merge again
+        p = np.asarray(m.p)
+        t = np.asarray(m.t).astype(np.int64)
+        half = rng.choice(nt, size=nt // 2, replace=False)
+        vs = np.unique(t[:, half])
+        remap = np.arange(p.shape[1])
+        remap[vs] = p.shape[1] + np.arange(vs.size)
+        t2 = t.copy()
+        t2[:, half] = remap[t[:, half]]
+        kw = {"sort_t": False} if (cls_name(m) == "MeshTri1" and not m.sort_t) else {}
+        cracked, _ = add_tags(ctx, rng, type(m)(np.hstack((p, p[:, vs])), t2, **kw))
+        return cracked.remove_duplicate_nodes()
+    if op == "from-mesh":
+        if kind == "line":
+            return None
+        return G.mesh_class(kind, 1 if order2 else 2).from_mesh(m)
+    if op == "morphed":
+        # an affine dyadic shear / stretch keeps straight sides, planar faces and exact midpoints
+        if D == 1:
+            return m.morphed(lambda p: 2.0 * p[0] + 1.0)
+        return m.morphed(lambda p: p[0] + 0.5 * p[1], lambda p: p[1] - 0.25 * p[0] if D == 2 else p[1] + 0.25 * p[2])
+    if op == "io-dict":
+        return type(m).from_dict(m.to_dict())
+    if op in ("io-npz", "io-file"):
+        import tempfile
+        with tempfile.TemporaryDirectory() as tmp:
+            if op == "io-npz":
+                m.save_npz(os.path.join(tmp, "m.npz"))
+                return type(m).load_npz(os.path.join(tmp, "m.npz"))
+            f = os.path.join(tmp, "m.msh" if rng.random() < 0.5 else "m.vtk")
+            import contextlib
+            import io
+            try:
+                with contextlib.redirect_stdout(io.StringIO()), contextlib.redirect_stderr(io.StringIO()):
+                    m.save(f)                  # meshio prints its warnings and errors
+                    out = skfem.Mesh.load(f)
+            except SystemExit as e:            # meshio's reader front end exits instead of raising
+                raise RuntimeError("meshio: %r" % (e,))
+        return out if type(out) is type(m) else None
+    if op == "defaults":
+        return m.with_defaults()
     if op == "restrict":
         if nt < 3:
             return None
@@ -1192,6 +1659,25 @@ def _directed():
     add("wedge-to-tet", "tet", lambda: skfem.MeshWedge1().to_meshtet().with_subdomains(third), 2)
     add("tet2-from-tensor", "tet", lambda: skfem.MeshTet2.from_mesh(skfem.MeshTet1.init_tensor(
         np.array([0, .25, 1.]), np.array([0, .5, 1.]), np.array([0, .75, 1.]))).with_subdomains(third))
+    # tag spellings: Python sequences (empty too), small integer dtypes on a mesh with more cells than they count
+    add("line-list-tags", "line", lambda: skfem.MeshLine(np.linspace(0, 1, 9)).with_subdomains(
+        {"none": [], "some": [5, 0, 2], "tup": (1, 7)}).with_boundaries({"ends": [0, 8], "mid": (4,)}), 2)
+    add("line-uint8-tags-200-cells", "line", lambda: skfem.MeshLine(np.linspace(0, 1, 201)).with_subdomains(
+        {"u8": np.array([130, 199, 3], dtype=np.uint8), "i16": np.array([130, 199, 3], dtype=np.int16)}), 2)
+    add("quad-list-tags", "quad", lambda: skfem.MeshQuad1().refined(1).with_subdomains(
+        {"none": [], "some": [3, 0], "tup": (1,)}).with_boundaries({"none": [], "some": [0, 5, 3], "tup": (1, 2)}), 2)
+    add("tri-uint8-tags-288-cells", "tri", lambda: skfem.MeshTri1.init_tensor(np.linspace(0, 1, 13), np.linspace(0, 1, 13))
+        .with_subdomains({"u8": np.array([255, 130, 7], dtype=np.uint8)})
+        .with_boundaries({"u8": np.array([255, 200, 0], dtype=np.uint8)}), 1)
+    # conversions that carry tags to the simplicial mesh (to_meshtri) or build a bare one (to_meshtet, tagged after)
+    add("quad-to-tri-x-tagged", "tri", lambda: skfem.MeshQuad1.init_tensor(np.array([0, .25, 1.]), np.array([0, .5, .75, 1.]))
+        .with_defaults().with_boundaries({"inner": np.array([1, 4, 7])}).with_subdomains({**half, "two": np.array([4, 1])})
+        .to_meshtri(style="x"), 2)
+    add("quad-to-tri-tagged", "tri", lambda: skfem.MeshQuad1().refined(2).with_defaults()
+        .with_subdomains({**half, "few": np.array([9, 2, 5])}).to_meshtri(), 2)
+    add("hex-to-tet-tagged", "tet", lambda: skfem.MeshHex1.init_tensor(np.array([0, .25, 1.]), np.array([0, .5, 1.]),
+                                                                       np.array([0, .75, 1.])).to_meshtet()
+        .with_subdomains({**third, "few": np.array([40, 3, 17])}).with_boundaries({"bottom": lambda x: x[2] == 0}))
     add("line-k0", "line", lambda: skfem.MeshLine1().refined(1).with_boundaries(ends).with_subdomains(half), 0)
     return cases
 
